@@ -83,7 +83,7 @@ func init() {
 	sqlDomain.scale, sqlDomain.scaleBase = sqlScale, sqlUnits
 	htmlDomain.scale, htmlDomain.scaleBase = htmlScale, htmlUnits
 	sqlDomain.aliasCases = sqlAliasCases
-	htmlDomain.extraCases = map[string]func() []string{"attrvals": htmlAttrValCases, "nsattrs": htmlNsAttrCases, "elements": htmlElementCases, "doubled": func() []string { return doubledCases(gen.HTMLSeeds) }}
+	htmlDomain.extraCases = map[string]func() []string{"attrvals": htmlAttrValCases, "nsattrs": htmlNsAttrCases, "elements": htmlElementCases, "doubled": func() []string { return doubledCases(gen.HTMLSeeds) }, "toktails": htmlTagTailCases}
 	sqlDomain.extraCases = map[string]func() []string{"qualified": sqlQualifiedCases, "gluelit": sqlGlueLitCases, "encatk": sqlEncodedAttackCases, "dialect": sqlDialectCases, "prose": sqlProseCases, "doubled": func() []string { return doubledCases(gen.SQLSeeds) }, "toktails": sqlTokTailCases}
 	htmlDomain.aliasCases = htmlAliasCases
 	sqlDomain.seamPairs = [][2]string{{"sp_password", " --"}, {"1", " --sp_password"}, {"", "' OR 1=1-- "}, {"1 ", "\" or 1=1 #"}, {"1 /*", "*/ union select 1"}, {"1", " union select 1,2"}, {"$$", "$$ or 1=1"}, {"x'", "' or 1=1"}, {"1 --", "\n or 1=1"}, {"1 or 1=1 -- ' or 1=1 -- \" union select 1 -- ", ""}, {"a' or 1=1 -- \" union select 1,2 -- ", " x"}}
@@ -515,6 +515,18 @@ func sqlTokTailCases() []string {
 			"$$a$$", "$t$a$t$", "$1.00", "@a", "@@a", "@`a`", "[a]", "`a`", "'a'", "\"a\"", "''", "'a''b'", "/**/", "/*a*/", "/*!1", "--x\n", "#x\n", "a", "a.b", "select", "sp_password",
 			"\\N", "{a b}", "?", "::", "<=>"}
 		tails := []string{"\\", "\r", "\n", "\t", " ", "\x00", "'", "\"", "`", "/", "*", "-", "#", "$", "@", ".", "e", "x", "0", "1", "(", ")", "[", "{", ":", ";", "=", "&", "|", "+", "\x80", "\xa0", "_"}
+		// digit groups: a literal continued by 1-4 groups behind a separator some dialect allows
+		for _, base := range []string{"0x", "0X", "0b", "0B", "", "1e", "1.", ".", "$", "x'", "b'"} {
+			for _, sep := range []string{"_", "'", ",", ".", "e", "-", "+", " ", "\\\n", "__"} {
+				for _, d := range []string{"1", "a", "0", "f", "12", "G"} {
+					t := base + d
+					for g := 1; g <= 4; g++ {
+						t += sep + d
+						tokTailMemo = append(tokTailMemo, t, t+" 1", "select "+t, "1 or "+t+sep, t+"'")
+					}
+				}
+			}
+		}
 		for _, f := range forms {
 			for _, a := range tails {
 				for _, b := range tails {
@@ -524,4 +536,37 @@ func sqlTokTailCases() []string {
 		}
 	})
 	return tokTailMemo
+}
+
+var tagTailOnce sync.Once
+var tagTailMemo []string
+
+// htmlTagTailCases: an element that browsers read as raw text / RCDATA / foreign
+// content (and a few ordinary ones), opened four ways, then an end tag of the
+// same name cut off or complete, with one NUL at every position of the name and
+// in either case, as the very last bytes and in front of five tails: a matcher
+// for "the end tag of the element just opened" runs off the end only there.
+func htmlTagTailCases() []string {
+	tagTailOnce.Do(func() {
+		names := []string{"title", "textarea", "script", "style", "xmp", "iframe", "noembed", "noframes", "noscript", "plaintext", "svg", "math", "a", "p", "template", "select", "option", "listing", "comment", "xml"}
+		for _, n := range names {
+			var ends []string
+			for _, nm := range []string{n, asciiUpper(n), n[:len(n)-1], n + n[:1]} {
+				ends = append(ends, nm)
+				for i := 0; i <= len(nm); i++ {
+					ends = append(ends, nm[:i]+"\x00"+nm[i:])
+				}
+			}
+			for _, open := range []string{"<" + n + ">", "<" + n + " a=b>", "<" + n + "/>", "<" + asciiUpper(n) + " >"} {
+				for _, body := range []string{"", "x", "<", "&", "</x>"} {
+					for _, e := range ends {
+						for _, tail := range []string{"", ">", " ", "/", "\x00", " a=b>"} {
+							tagTailMemo = append(tagTailMemo, open+body+"</"+e+tail)
+						}
+					}
+				}
+			}
+		}
+	})
+	return tagTailMemo
 }
